@@ -83,6 +83,13 @@ CHECKS = {
              "hand-transcribed published formula (by reflexivity), lat in [-90,90], lon in [0,360)/[-180,180], poles -> 0. The numpy "
              "closure emitted by the same AST walk is compared bit for bit with evaluate. PARTIAL: binary64 behaviour is sampled.",
         ref="5 C19", technique="Coq proof over real-number model regenerated from source by translator + bit-exact translator self-check"),
+    "C15": dict(
+        text="Theorems over a hand model (exact integers) of the label mappers and the region selector: array_cell_correct (the cell "
+             "containing the point, for every mask/point, via the nearest-centre theorem of C13), far_edge_is_error, "
+             "overlap_check_sound (any list of ranges, any order), range_unique_label/no_label_outside/nan/end points, "
+             "dict_label_within_tol, selector_applies_own_transform (gather-by-label/apply/scatter equals the per-point specification for "
+             "every batch). Tied by AST pins and by evaluating the model in Coq on the implementation's cases.",
+        ref="5 C15", technique="Coq proof over hand-written executable model + AST pins + vm_compute correspondence"),
 }
 
 NOT_YET = "check not built yet in this session (work in progress; see DESIGN.md section 10 build order)"
